@@ -322,7 +322,8 @@ func runC02Inbound(c *Ctx) error {
 	// a peer that is NOT gws: it offers the extension in the forms RFC 7692 allows (without client_max_window_bits, with a
 	// bare one, with a server_max_window_bits request), reads the server's ANSWER and compresses with the window the answer
 	// allows it (2^N when the answer carries client_max_window_bits=N, 32 KiB otherwise, RFC 7692 7.1.2.2)
-	for oi, offer := range []string{"permessage-deflate", "permessage-deflate; client_max_window_bits", "permessage-deflate; server_max_window_bits=9", "permessage-deflate; client_max_window_bits=11; server_max_window_bits=10"} {
+	for oi, offer := range []string{"permessage-deflate", "permessage-deflate; client_max_window_bits", "permessage-deflate; server_max_window_bits=9", "permessage-deflate; client_max_window_bits=11; server_max_window_bits=10",
+		"permessage-deflate; server_no_context_takeover", "permessage-deflate; client_no_context_takeover; server_no_context_takeover; client_max_window_bits"} {
 		for _, cbits := range []int{8, 10, 12, 15} {
 			opt := &gws.ServerOption{ReadMaxPayloadSize: 1 << 20, PermessageDeflate: gws.PermessageDeflate{Enabled: true, ServerContextTakeover: true, ClientContextTakeover: true,
 				ServerMaxWindowBits: 12, ClientMaxWindowBits: cbits}}
@@ -354,6 +355,34 @@ func runC02Inbound(c *Ctx) error {
 				}
 				if kv[0] == "client_no_context_takeover" {
 					peerTO = false
+				}
+			}
+			// the other direction: what gws sends must be decodable by this peer, which keeps the history the ANSWER tells it to
+			// keep (none after server_no_context_takeover, at most 2^server_max_window_bits bytes otherwise)
+			{
+				sTO, sBits := true, 15
+				for _, part := range strings.Split(answer, ";") {
+					kv := strings.SplitN(strings.TrimSpace(part), "=", 2)
+					if kv[0] == "server_no_context_takeover" {
+						sTO = false
+					}
+					if kv[0] == "server_max_window_bits" && len(kv) == 2 {
+						if n, e := strconv.Atoi(strings.Trim(kv[1], "\"")); e == nil && n >= 8 && n <= 15 {
+							sBits = n
+						}
+					}
+				}
+				rx := &rfcReceiver{server: true, takeover: sTO, bits: sBits}
+				text := bytes.Repeat([]byte("the same text goes out twice, then a third time with a twist; "), 12)
+				for k, pl := range [][]byte{text, text, append([]byte("twist: "), text...)} {
+					nb := tap.numWrites()
+					werr := conn.WriteMessage(gws.OpcodeText, pl)
+					ms, problem := rx.receive(joinSlices(tap.writeCalls()[nb:]))
+					if werr != nil || problem != "" || len(ms) != 1 || !bytes.Equal(ms[0].Payload, pl) {
+						c.oracleFail(fmt.Sprintf("message %d sent by gws cannot be decoded by a peer that keeps the context the handshake answer %q describes (takeover=%v, 2^%d): %s (write result %v) [%s]", k, answer, sTO, sBits, problem, werr, tag),
+							"context-desync", map[string]any{"tag": tag, "answer": answer, "message": k})
+						break
+					}
 				}
 			}
 			win := 1 << uint(peerBits)
